@@ -300,6 +300,3 @@ func c04OneWriter(p *load.Program, r *oblig.Report, rule string, fobj *types.Fun
 	r.Check(an.LinEqual(ev[0].Val.L, want), rule, construct, pos, "h.Size = "+oblig.Short(want.String(), 600), "differs in: "+linDiff(want, ev[0].Val.L),
 		fmt.Sprintf("%d write events; total bytes %s", len(ev), oblig.Short(total.String(), 600)))
 }
-
-
-
